@@ -5,33 +5,33 @@
    The model walks a document exactly as Decoder.Decode does, but instead of
    producing events it keeps the quantities that determine the cost:
 
-     buf    len(Reader.buffer)          (expandBufferTo: a NEW buffer of
-                                         2*minSize whenever len(buffer) < minSize,
-                                         allocated BEFORE any byte is read)
+     buf    len(Reader.buffer)
      nread  Reader.bytesRead            (every byte pulled from the source)
      al     bytes allocated for reader buffers during the walk (the initial
             127-byte buffer belongs to NewDecoder and is not counted)
+     rwork  bytes copied by growBuffer
      nev    number of events delivered to the receiver so far
      atot   Context.arrayTotalByteCount (validator; uint64 arithmetic)
-     vcap, vlen, val
-            cap / len of Context.builtArrayBuffer and the bytes allocated for
-            it (append growth, Go 1.23 runtime.nextslicecap WITHOUT the final
-            size-class rounding, which belongs to the allocator)
+     vcap, vlen, val, vwork
+            cap / len of Context.builtArrayBuffer, the bytes allocated for it
+            (append growth, Go 1.23 runtime.nextslicecap WITHOUT the final
+            size-class rounding, which belongs to the allocator) and the bytes
+            copied into it
 
-   What is modelled as the code does it, defects included:
-     - ReadBytes / readIntoBuffer / expandBufferTo: the buffer is grown to twice
-       the ANNOUNCED length first; the announced length is not compared with
-       anything (the input that is left, a limit) by the reader;
+   What is modelled as the code does it:
+     - ReadBytes / readIntoBuffer / growBuffer (repaired policy, commit 8884bbf
+       of /repo): the buffer is filled as data ARRIVES; only when it is full
+       and more is wanted is a new one allocated, of twice the current length
+       (at least the start size, at most twice the wanted length), and what was
+       read is copied over.  The announced length alone allocates nothing;
      - make([]byte, n) panics (recoverable, nothing allocated) when n exceeds the
-       runtime's maxAlloc = 2^48 (linux/amd64); below that the allocation is
-       attempted, and when the OS refuses it the process dies;
+       runtime's maxAlloc = 2^48 (linux/amd64);
      - the length limits that exist: ReadUint 1024, identifiers 100000, media
        type 2^32-1, chunk headers 2^64-1 (element count < 2^63);
      - common.ElementCountToByteCount in uint64 arithmetic (elem_bytes);
-     - the validator's only size check, markUpcomingChunkByteCount, run when an
-       array-chunk event arrives (so BEFORE the chunk's bytes are read) and only
-       when a validator is in the pipeline; it is not consulted for the media
-       type string; a limit of 0 means "no limit";
+     - the validator's size check, markUpcomingChunkByteCount, run when an
+       array-chunk event arrives (before the chunk's bytes are read) and only
+       when a validator is in the pipeline; a limit of 0 means "no limit";
      - Rules.MaxDocumentSizeBytes (markBytesRead: add, then compare).
 
    Everything else a validator or receiver may do is represented by [stop]: the
@@ -45,9 +45,10 @@
 
    Not modelled: the Go allocator (size classes, GC), allocations of the
    event values themselves (big.Int words, the media type string copy, map
-   bookkeeping of the validator): these are proportional to bytes actually read
-   and are covered by the slack of the comparison with runtime.MemStats in
-   [cost_case_ok].  CTE is not modelled (measured only by the harness).
+   bookkeeping of the validator, error values): these are proportional to bytes
+   actually read and are covered by the slack of the comparison with
+   runtime.MemStats in [cost_case_ok].  CTE is not modelled (measured only by
+   the harness).
 
    Executable definitions only. *)
 From Coq Require Import List NArith ZArith Bool.
@@ -163,22 +164,13 @@ Record ccfg := {
 (* runtime.maxAlloc on linux/amd64: make([]byte, n) panics with "len out of range" when n exceeds it *)
 Definition go_max_alloc : N := 281474976710656.           (* 2^48 *)
 
-(* which length field announced the read that could not be satisfied *)
-Inductive rkind := RNone | RFixed | RUint | RIdent | RMedia | RChunk.
-
-Definition rkind_eqb (a b : rkind) : bool :=
-  match a, b with
-  | RNone, RNone | RFixed, RFixed | RUint, RUint | RIdent, RIdent | RMedia, RMedia | RChunk, RChunk => true
-  | _, _ => false
-  end.
-
 Record cst := mkst {
-  buf : N; nread : N; al : N; nev : N;
+  buf : N; nread : N; al : N; rwork : N; nev : N;
   atot : N; vcap : N; vlen : N; val : N; vwork : N
 }.
 
 Definition st0 : cst :=
-  {| buf := cbeDecoderStartBufferSize; nread := 0; al := 0; nev := 0;
+  {| buf := cbeDecoderStartBufferSize; nread := 0; al := 0; rwork := 0; nev := 0;
      atot := 0; vcap := 0; vlen := 0; val := 0; vwork := 0 |}.
 
 Inductive why :=
@@ -187,7 +179,7 @@ Inductive why :=
 | WDocLimit     (* MaxDocumentSizeBytes exceeded *)
 | WArrayLimit   (* validator: MaxArraySizeBytes exceeded at a chunk header *)
 | WTooLarge     (* make: len out of range *)
-| WShort        (* source exhausted inside a read of an announced length *)
+| WShort        (* source exhausted inside a ReadBytes *)
 | WStopped      (* the receiver / validator refused event number [stop] *)
 | WExt          (* an external field decoder reported an error *)
 | WFuel.        (* never happens: fuel is the input length *)
@@ -199,21 +191,20 @@ Definition why_eqb (a b : why) : bool :=
   | _, _ => false
   end.
 
-(* result of a step: value, state, unread input; or failure with the announced
-   length that was not satisfied ([over], 0 if none), its kind, and the state *)
+(* result of a step: value, state, unread input; or failure with the state reached *)
 Inductive res (A : Type) :=
 | ROk (a : A) (s : cst) (rest : bytes)
-| RFail (w : why) (over : N) (k : rkind) (s : cst).
+| RFail (w : why) (s : cst).
 Arguments ROk {A}. Arguments RFail {A}.
 
 Definition M (A : Type) := cst -> bytes -> res A.
 
 Definition ret {A} (a : A) : M A := fun s r => ROk a s r.
-Definition fail {A} (w : why) : M A := fun s _ => RFail w 0 RNone s.
+Definition fail {A} (w : why) : M A := fun s _ => RFail w s.
 Definition bind {A B} (m : M A) (f : A -> M B) : M B :=
   fun s r => match m s r with
              | ROk a s' r' => f a s' r'
-             | RFail w o k s' => RFail w o k s'
+             | RFail w s' => RFail w s'
              end.
 Notation "x <- m ;; f" := (bind m (fun x => f)) (at level 61, m at next level, right associativity).
 Notation "m ;;; f" := (bind m (fun _ => f)) (at level 61, right associativity).
@@ -223,23 +214,24 @@ Notation "m ;;; f" := (bind m (fun _ => f)) (at level 61, right associativity).
 (* ------------------------------------------------------------------ *)
 
 Definition add_nread (n : N) (s : cst) : cst :=
-  {| buf := buf s; nread := nread s + n; al := al s; nev := nev s;
+  {| buf := buf s; nread := nread s + n; al := al s; rwork := rwork s; nev := nev s;
      atot := atot s; vcap := vcap s; vlen := vlen s; val := val s; vwork := vwork s |}.
 
-Definition grow_buf (n : N) (s : cst) : cst :=         (* buffer = make([]byte, n) *)
-  {| buf := n; nread := nread s; al := al s + n; nev := nev s;
+(* growBuffer: buffer = make([]byte, n), then copy of the [filled] bytes read so far *)
+Definition grow_buf (n filled : N) (s : cst) : cst :=
+  {| buf := n; nread := nread s; al := al s + n; rwork := rwork s + filled; nev := nev s;
      atot := atot s; vcap := vcap s; vlen := vlen s; val := val s; vwork := vwork s |}.
 
 Definition add_nev (s : cst) : cst :=
-  {| buf := buf s; nread := nread s; al := al s; nev := nev s + 1;
+  {| buf := buf s; nread := nread s; al := al s; rwork := rwork s; nev := nev s + 1;
      atot := atot s; vcap := vcap s; vlen := vlen s; val := val s; vwork := vwork s |}.
 
 Definition set_atot (n : N) (s : cst) : cst :=
-  {| buf := buf s; nread := nread s; al := al s; nev := nev s;
+  {| buf := buf s; nread := nread s; al := al s; rwork := rwork s; nev := nev s;
      atot := n; vcap := vcap s; vlen := vlen s; val := val s; vwork := vwork s |}.
 
 Definition set_v (cap len alloc wk : N) (s : cst) : cst :=
-  {| buf := buf s; nread := nread s; al := al s; nev := nev s;
+  {| buf := buf s; nread := nread s; al := al s; rwork := rwork s; nev := nev s;
      atot := atot s; vcap := cap; vlen := len; val := alloc; vwork := wk |}.
 
 (* ------------------------------------------------------------------ *)
@@ -278,15 +270,15 @@ Variable stop : option N.
 (* markBytesRead: add, then compare with the limit *)
 Definition mark (n : N) : M unit := fun s r =>
   let s' := add_nread n s in
-  if max_doc cfg <? nread s' then RFail WDocLimit 0 RNone s' else ROk tt s' r.
+  if max_doc cfg <? nread s' then RFail WDocLimit s' else ROk tt s' r.
 
 (* ReadUint8 / ReadType: one byte, never through the growing buffer *)
 Definition take1 : M N := fun s r =>
   match r with
-  | [] => RFail WEof 0 RNone s
+  | [] => RFail WEof s
   | x :: r' => match mark 1 s r' with
                | ROk _ s' _ => ROk x s' r'
-               | RFail w o k s' => RFail w o k s'
+               | RFail w s' => RFail w s'
                end
   end.
 
@@ -294,15 +286,15 @@ Definition take1 : M N := fun s r =>
    each counted as it is pulled.  Value, number of bytes. *)
 Fixpoint uleb_raw (s : cst) (r : bytes) : res (N * nat) :=
   match r with
-  | [] => RFail WEof 0 RNone s
+  | [] => RFail WEof s
   | x :: r' =>
       match mark 1 s r' with
-      | RFail w o k s' => RFail w o k s'
+      | RFail w s' => RFail w s'
       | ROk _ s' _ =>
           if x <? 128 then ROk (x, 1%nat) s' r'
           else match uleb_raw s' r' with
                | ROk (v, n) s'' r'' => ROk (x mod 128 + 128 * v, S n) s'' r''
-               | RFail w o k s'' => RFail w o k s''
+               | RFail w s'' => RFail w s''
                end
       end
   end.
@@ -316,30 +308,44 @@ Definition read_uleb (maxv : N) : M N :=
   p <- uleb_raw ;;
   (if is_big (fst p) (snd p) || (maxv <? fst p) then fail WSyntax else ret (fst p)).
 
-(* ReadBytes(count) = expandBufferTo(count) then the read loop over a bytes.Buffer source *)
-Definition read_buf (k : rkind) (count : N) : M unit := fun s r =>
-  let grown :=
-    if buf s <? count then
-      (if go_max_alloc <? 2 * count then None else Some (grow_buf (2 * count) s))
-    else Some s in
-  match grown with
-  | None => RFail WTooLarge 0 RNone s
-  | Some s1 =>
-      if count =? 0 then ROk tt s1 r
+(* readIntoBuffer(count) over a bytes.Buffer source ([filled] bytes of it already in the buffer).
+   Each round: grow if the buffer is full, then one Read into buffer[filled:min(len(buffer),count)],
+   which hands over min(space, what the source has) bytes, or reports EOF when it has none.
+   Every round that goes on consumes at least one byte: the input length is enough fuel. *)
+Fixpoint fill (fuel : nat) (count filled : N) : M unit := fun s r =>
+  match fuel with
+  | O => RFail WFuel s
+  | S f =>
+      if count <=? filled then ROk tt s r
       else
-        let avail := N.of_nat (length r) in
-        if count <=? avail then mark count s1 (skipn (N.to_nat count) r)
-        else
-          (* the source hands over what it has, then reports EOF *)
-          let s2 := add_nread avail s1 in
-          if (0 <? avail) && (max_doc cfg <? nread s2) then RFail WDocLimit count k s2
-          else RFail WShort count k s2
+        let grown :=
+          if filled =? buf s then
+            (* growBuffer(filled, count) *)
+            let n := N.min (N.max (2 * buf s) cbeDecoderStartBufferSize) (2 * count) in
+            if go_max_alloc <? n then None else Some (grow_buf n filled s)
+          else Some s in
+        match grown with
+        | None => RFail WTooLarge s
+        | Some s1 =>
+            let space := N.min (buf s1) count - filled in
+            let avail := N.of_nat (length r) in
+            if avail =? 0 then RFail WShort s1
+            else
+              let n := N.min space avail in
+              match mark n s1 (skipn (N.to_nat n) r) with
+              | ROk _ s2 r2 => fill f count (filled + n) s2 r2
+              | RFail w s2 => RFail w s2
+              end
+        end
   end.
+
+(* ReadBytes(count) *)
+Definition read_buf (count : N) : M unit := fun s r => fill (S (length r)) count 0 s r.
 
 (* delivery of one event *)
 Definition emit : M unit := fun s r =>
   match stop with
-  | Some k => if nev s =? k then RFail WStopped 0 RNone s else ROk tt (add_nev s) r
+  | Some k => if nev s =? k then RFail WStopped s else ROk tt (add_nev s) r
   | None => ROk tt (add_nev s) r
   end.
 
@@ -356,7 +362,7 @@ Definition rules_chunk (t count nb : N) : M unit := fun s r =>
   if rules_on cfg && negb (count =? 0) then
     let tot := u64 (atot s + (if stringlike t then count else nb)) in
     let s' := set_atot tot s in
-    if (max_array cfg <? tot) && (0 <? max_array cfg) then RFail WArrayLimit 0 RNone s' else ROk tt s' r
+    if (max_array cfg <? tot) && (0 <? max_array cfg) then RFail WArrayLimit s' else ROk tt s' r
   else ROk tt s r.
 
 (* validator, StringChunkRule.OnArrayData -> AddBuiltArrayBytes (upper bound: the
@@ -371,7 +377,7 @@ Definition rules_data (t nb : N) : M unit := fun s r =>
   else ROk tt s r.
 
 (* the data of one chunk: ReadBytes, then OnArrayData reaches the validator *)
-Definition read_data (t nb : N) : M unit := read_buf RChunk nb ;;; rules_data t nb.
+Definition read_data (t nb : N) : M unit := read_buf nb ;;; rules_data t nb.
 
 (* decodeArrayChunks *)
 Fixpoint chunks (fuel : nat) (t : N) : M unit :=
@@ -397,7 +403,7 @@ Definition array (t : N) : M unit :=
 (* decodeMedia *)
 Definition media : M unit :=
   n <- read_uleb media_type_max_length ;;
-  read_buf RMedia n ;;;
+  read_buf n ;;;
   emit ;;; rules_begin ;;; with_fuel (fun f => chunks f cbeAT_Media).
 
 (* decodeCustomType *)
@@ -408,7 +414,7 @@ Definition custom : M unit :=
 (* ReadIdentifier *)
 Definition ident : M unit :=
   n <- read_uleb identifier_max_length ;;
-  (if n =? 0 then fail WSyntax else read_buf RIdent n).
+  (if n =? 0 then fail WSyntax else read_buf n).
 
 (* compact_float.DecodeWithByteBuffer *)
 Definition decimal : M unit :=
@@ -424,15 +430,15 @@ Definition decimal : M unit :=
 (* external decoder: pulls [n] bytes through Reader.Read *)
 Definition external (ty : N) : M unit := fun s r =>
   match ext ty r with
-  | None => RFail WExt 0 RNone s
-  | Some n => if (n <=? length r)%nat then mark (N.of_nat n) s (skipn n r) else RFail WExt 0 RNone s
+  | None => RFail WExt s
+  | Some n => if (n <=? length r)%nat then mark (N.of_nat n) s (skipn n r) else RFail WExt s
   end.
 
 (* decodePlane7f *)
 Definition plane7f : M unit :=
   ty <- take1 ;;
   match classify7f ty with
-  | CFixed n => read_buf RFixed n ;;; emit
+  | CFixed n => read_buf n ;;; emit
   | CIdent => ident ;;; emit
   | CArray t => array t
   | CMedia => media
@@ -445,9 +451,9 @@ Definition token (ty : N) : M unit :=
   | CEmit => emit
   | CBad => fail WSyntax
   | CDecimal => decimal ;;; emit
-  | CVarInt => n <- read_uleb (cbeMaxBigIntBitCount / 8) ;; read_buf RUint n ;;; emit
+  | CVarInt => n <- read_uleb (cbeMaxBigIntBitCount / 8) ;; read_buf n ;;; emit
   | CByte => _ <- take1 ;; emit
-  | CFixed n => read_buf RFixed n ;;; emit
+  | CFixed n => read_buf n ;;; emit
   | CIdent => ident ;;; emit
   | CExt => external ty ;;; emit
   | CPlane => plane7f
@@ -462,7 +468,7 @@ Fixpoint loop (fuel : nat) : M unit := fun s r =>
   | [] => emit s r                                     (* ReadTypeOrEOF = EOF: OnEndDocument *)
   | _ :: _ =>
       match fuel with
-      | O => RFail WFuel 0 RNone s
+      | O => RFail WFuel s
       | S f => (ty <- take1 ;; token ty ;;; loop f) s r
       end
   end.
@@ -484,24 +490,22 @@ End Walk.
 
 Record outcome := {
   o_why  : option why;   (* None: Decode returned nil *)
-  o_over : N;            (* announced length of the read that ran out of input (0: none did) *)
-  o_kind : rkind;
   o_st   : cst
 }.
 
 Definition run (cfg : ccfg) (ext : N -> bytes -> option nat) (stop : option N) (d : bytes) : outcome :=
   match decode cfg ext stop st0 d with
-  | ROk _ s _ => {| o_why := None; o_over := 0; o_kind := RNone; o_st := s |}
-  | RFail w o k s => {| o_why := Some w; o_over := o; o_kind := k; o_st := s |}
+  | ROk _ s _ => {| o_why := None; o_st := s |}
+  | RFail w s => {| o_why := Some w; o_st := s |}
   end.
 
 (* bytes allocated by the reader and the validator while decoding d *)
 Definition alloc (cfg : ccfg) ext stop (d : bytes) : N :=
   let s := o_st (run cfg ext stop d) in al s + val s.
 
-(* the decoder's own work: bytes pulled, events delivered, bytes copied / checked by the validator *)
+(* the decoder's own work: bytes pulled, events delivered, bytes copied by growBuffer, bytes copied / checked by the validator *)
 Definition steps (cfg : ccfg) ext stop (d : bytes) : N :=
-  let s := o_st (run cfg ext stop d) in nread s + nev s + vwork s.
+  let s := o_st (run cfg ext stop d) in nread s + nev s + rwork s + vwork s.
 
 (* work including the zero-filling of what make() hands out *)
 Definition time (cfg : ccfg) ext stop (d : bytes) : N := steps cfg ext stop d + alloc cfg ext stop d.
@@ -520,9 +524,9 @@ Definition default_ccfg (rules : bool) : ccfg :=
 Fixpoint reader_trace (cfg : ccfg) (counts : list N) (s : cst) (r : bytes) : list N :=
   match counts with
   | [] => []
-  | c :: cs => match read_buf cfg RChunk c s r with
+  | c :: cs => match read_buf cfg c s r with
                | ROk _ s' r' => buf s' :: reader_trace cfg cs s' r'
-               | RFail _ _ _ s' => [buf s']
+               | RFail _ s' => [buf s']
                end
   end.
 
@@ -545,7 +549,8 @@ Inductive cost_case :=
 | CostRun (cfg : ccfg) (stop : option N) (doc : bytes) (err : bool) (obuf onread onev : N) (measured : N)
 (* the child died (out of memory under the address-space cap [cap]) while decoding doc; [base] is its
    address-space size before the first document, [req] the size of the block the runtime reported it
-   could not allocate (0 if the message was not understood) *)
+   could not allocate (0 if the message was not understood).  With the repaired reader no generated
+   document does this any more; a death the model cannot explain is a mismatch. *)
 | CostKilled (cfg : ccfg) (doc : bytes) (cap base req : N)
 (* cbe.Reader alone: ReadBytes(counts...) over [input]: len(buffer) after each call (up to the first panic) *)
 | ReaderRun (counts : list N) (input : bytes) (bufs : list N).
